@@ -157,6 +157,7 @@ type ReaderSpec struct {
 	Drains     bool  `json:"drains"`
 	Note       string `json:"note,omitempty"`
 	ViaUpgrade bool  `json:"via_upgrade,omitempty"` // Conn made by Upgrader.Upgrade from a hijacked reader (BrSize, Buffered)
+	DetachedBr bool  `json:"detached_br,omitempty"` // the hijacked bufio.Reader's source is not the connection: it ends after the buffered bytes
 	ViaDial    bool  `json:"via_dial,omitempty"`    // Conn made by Dialer.Dial; the server sends 101 + Chunks' bytes, cut at DialSplit
 	DialSplit  int   `json:"dial_split,omitempty"`
 	// Resume: the fault (a timeout or arbitrary error, reported alone) is transient; the transport then
@@ -311,6 +312,7 @@ func readerExec(s core.Spec) core.Exec {
 		w := NewFakeRW(sc)
 		w.BrSize = sp.BrSize
 		w.Buffered = sp.Buffered
+		w.Detached = sp.DetachedBr
 		u := websocket.Upgrader{ReadBufferSize: sp.RBuf, EnableCompression: sp.Negotiated, CheckOrigin: func(*http.Request) bool { return true }}
 		var err error
 		c, err = u.Upgrade(w, r, nil)
